@@ -534,6 +534,12 @@ class ClosureSpec(FnContract):
         if outcome[0] == 'return':
             ex.prove('C07:LambdaOp.eval.f:yields-the-body-value', ['C07'],
                      bool(calls) and outcome[1] == calls[0][4] if calls else False)
+        else:
+            # calling a lambda fails only through its body (whatever the number of arguments: a missing one is an
+            # unbound name inside the body, a surplus one is ignored): the call protocol raises nothing of its own
+            failed = [c for c in calls if c[5] is not None]
+            ex.prove('C16:LambdaOp.eval.f:a-call-fails-only-through-the-body', ['C16', 'C07'],
+                     bool(failed) and outcome[1] == failed[-1][5] if failed else False)
 
 
 def tasks(engine):
